@@ -1,4 +1,5 @@
 CONSTANTS EmitHist = TRUE
+Mutant = FALSE
 INIT Init
 NEXT Next
 INVARIANT Agreement
